@@ -280,10 +280,12 @@ def units(tier, seed):
     for pn in ['x*x', 'exp', 'x/(1+x*x)', 'exp(dot)', 'sin(x)*x']:
         out.append(Unit('C04/%s/jacobian(utpm D3,P1)/rec=nd' % pn, 'symx.props.c04', 'h_driver',
                         {'pname': pn, 'rec': 'nd', 'driver': 'jacobian(utpm D3,P1)'}, dict(opts, float_tol=2e-4)))
-    nrand = 6 if tier == 'quick' else 40
+    nrand = 6 if tier == 'quick' else 150
     for i in range(nrand):
         name = 'random(seed=%d,len=%d)' % (7000 + 1000 * seed + i, 3 + i % 5)
         for drv in ['jacobian', 'vec_hess']:
+            if drv == 'vec_hess' and (3 + i % 5) > 4:
+                continue        # second derivatives of longer compositions exceed the solver cap
             out.append(Unit('C04/%s/%s/rec=%s' % (name, drv, recs[i % 3]), 'symx.props.c04', 'h_driver',
                             {'pname': name, 'rec': recs[i % 3], 'driver': drv}, dict(opts)))
     return out
